@@ -62,6 +62,7 @@ def strip(c):
     c.pop("fail", None)
     for st in c.get("steps") or []:
         st.pop("out", None)
+        st.pop("early_ran", None)
     return c
 
 
